@@ -80,8 +80,8 @@ def resolvers(ctx, db):
                         n = nullness(it)
                         if n and n[0] == CP and win is None:
                             win = n[1]
-                    ev = it.ev if it.k == 'enter' else it
-                    if it.k == 'leave':
+                    ev = it
+                    if it.k in ('enter', 'leave'):
                         continue
                     if ev.k == 'call' and norm(ev.get('callee')) in SET:
                         if not (it.k != 'enter' and False):
@@ -252,7 +252,7 @@ def async_side(ctx, db):
             ctx.ob(rid, f, f['key'], bad is None, 'the coroutine result is stored into the bound future once, only if one is bound' + ('' if not bad else ' -- ' + bad), desc=bad)
     rid2 = ctx.rule('C01.bound-future-writers', 'WHO', 'async_promise::_future is written only by async::start_promise (from promise::claim()) and async::co_awaiter::await_suspend (the awaiter\'s own private future)')
     found = who(db, lambda f, e: e.k == 'write' and field_of(e) == FUT and not e.get('init'))
-    check_who(ctx, rid2, found, {'cocls::async::start_promise', 'cocls::async::co_awaiter::await_suspend'}, 'write of async_promise::_future')
+    check_who(ctx, rid2, found, {'cocls::async::start_promise', 'cocls::async::co_awaiter::await_suspend'}, 'write of async_promise::_future', db=db)
     for fname, lst in found.items():
         if fname == 'cocls::async::start_promise':
             f, e = lst[0]
@@ -276,9 +276,9 @@ def who_writes(ctx, db):
         if e.k == 'call' and '::~' in (e.get('callee') or '') and norm(e.get('field') or '').startswith('cocls::future::(anonymous)'):
             return True
         return False
-    check_who(ctx, rid, who(db, pred), STATE_WRITERS, 'write of the future\'s state/value')
+    check_who(ctx, rid, who(db, pred), STATE_WRITERS, 'write of the future\'s state/value', db=db)
     rid2 = ctx.rule('C01.resolve-one-way', 'WHO', 'awaiter::resume_chain_set_ready (the only way the slot becomes "ready") is called only by future::resolve')
-    check_who(ctx, rid2, who(db, lambda f, e: e.k == 'call' and norm(e.get('callee')) == 'cocls::awaiter::resume_chain_set_ready'), {'cocls::future::resolve'}, 'call of resume_chain_set_ready')
+    check_who(ctx, rid2, who(db, lambda f, e: e.k == 'call' and norm(e.get('callee')) == 'cocls::awaiter::resume_chain_set_ready'), {'cocls::future::resolve'}, 'call of resume_chain_set_ready', db=db)
 
 
 def no_value(ctx, db):
